@@ -76,24 +76,35 @@ Proof.
 Qed.
 Print Assumptions C08_series_error.
 
-(* dead_reckoning_same_step: with a null accelerometer sample Madgwick and Mahony, and the prediction steps of EKF and
-   ROLEQ, advance by the same first-order step q + dt/2 q(x)(0,w) (EKF.f before its later normalisation); AQUA advances
-   its conjugate-convention attitude by the conjugate of that step; and that step is the order-1 series step *)
-Theorem C08_dead_reckoning_same_step : forall dt wx wy wz w x y z,
+(* dead_reckoning_same_step: with a null accelerometer sample Madgwick and Mahony (IMU and MARG entry points), and the
+   prediction steps of EKF and ROLEQ, advance by the same first-order step q + dt/2 q(x)(0,w) (EKF.f before its later
+   normalisation); AQUA (IMU, MARG, adaptive or not) advances its conjugate-convention attitude by the conjugate of that
+   step; and that step is the order-1 series step.  The statement is quantified over the CARRIED STATE of every filter
+   object as well: Mahony's bias estimate b and gains k_P, k_I (the bias is returned unchanged), Madgwick's gain, AQUA's
+   alpha / beta / threshold, EKF's covariance P = p I, and over the magnetometer sample of the MARG entry points: the
+   step depends on none of them. *)
+Theorem C08_dead_reckoning_same_step : forall dt wx wy wz w x y z b0 b1 b2 kp ki gain alpha beta thr p m0 m1 m2,
   w*w + x*x + y*y + z*z = 1 -> wx*wx + wy*wy + wz*wz <> 0 ->
   let D := dr_step dt wx wy wz [w;x;y;z] in
-  C08_ekf_f_R dt wx wy wz w x y z = Val D /\
+  C08_ekf_f_R dt wx wy wz w x y z p = Val D /\
   C08_roleq_R dt wx wy wz w x y z = Val (qnormalize D) /\
-  C08_madgwick_R dt wx wy wz w x y z = Val (qnormalize D) /\
-  C08_mahony_R dt wx wy wz w x y z = Val (qnormalize D) /\
-  C08_aqua_R dt wx wy wz w (-x) (-y) (-z) = Val (qconj (qnormalize D)) /\
+  C08_madgwick_R dt wx wy wz w x y z gain = Val (qnormalize D) /\
+  (m0*m0 + m1*m1 + m2*m2 <> 0 -> C08_madgwick_marg_R dt wx wy wz w x y z gain m0 m1 m2 = Val (qnormalize D)) /\
+  C08_mahony_R dt wx wy wz w x y z b0 b1 b2 kp ki = Val (qnormalize D ++ [b0; b1; b2]) /\
+  C08_mahony_marg_R dt wx wy wz w x y z b0 b1 b2 kp ki m0 m1 m2 = Val (qnormalize D ++ [b0; b1; b2]) /\
+  C08_aqua_R dt wx wy wz w (-x) (-y) (-z) alpha beta thr = Val (qconj (qnormalize D)) /\
+  C08_aqua_adaptive_R dt wx wy wz w (-x) (-y) (-z) alpha beta thr = Val (qconj (qnormalize D)) /\
+  C08_aqua_marg_R dt wx wy wz w (-x) (-y) (-z) alpha beta thr m0 m1 m2 = Val (qconj (qnormalize D)) /\
   C08_series1_R dt wx wy wz w x y z = Val (qnormalize D).
 Proof.
-  intros dt wx wy wz w x y z H NZ D. unfold D.
-  split; [apply ekf_f_val|]. split; [apply roleq_val|]. split; [apply madgwick_val; auto|]. split; [apply mahony_val; auto|].
-  split.
-  - rewrite aqua_val; [|nra|exact NZ]. replace (qconj [w; -x; -y; -z]) with [w;x;y;z] by (unfold_rot; list_eq; ring). reflexivity.
-  - apply series1_is_dr; auto.
+  intros dt wx wy wz w x y z b0 b1 b2 kp ki gain alpha beta thr p m0 m1 m2 H NZ D. unfold D.
+  assert (C : qconj [w; -x; -y; -z] = [w;x;y;z]) by (unfold_rot; list_eq; ring).
+  split; [apply ekf_f_val|]. split; [apply roleq_val|]. split; [apply madgwick_val; auto|].
+  split; [intros MZ; apply madgwick_marg_val; auto|]. split; [apply mahony_val; auto|]. split; [apply mahony_marg_val; auto|].
+  split; [rewrite aqua_val; [rewrite C; reflexivity|nra|exact NZ]|].
+  split; [rewrite aqua_adaptive_val; [rewrite C; reflexivity|nra|exact NZ]|].
+  split; [rewrite aqua_marg_val; [rewrite C; reflexivity|nra|exact NZ]|].
+  apply series1_is_dr; auto.
 Qed.
 Print Assumptions C08_dead_reckoning_same_step.
 
